@@ -24,6 +24,7 @@ import json
 import os
 import pickle
 import shutil
+import signal
 import subprocess
 import sys
 import time
@@ -196,16 +197,25 @@ def run_child(batch: Path, seed: int, timeout_per_entry=20):
     while start < n:
         done_before = sum(1 for _ in open(out))
         err = open(str(batch) + ".stderr", "ab")
+        p = subprocess.Popen([sys.executable, "-c", "import sys; from vt.tasks_c29 import child_main; "
+                                                    "child_main(sys.argv[1], int(sys.argv[2]))", str(batch), str(start)],
+                             env=env, cwd=str(Path(__file__).resolve().parents[2]), stdout=err, stderr=err,
+                             start_new_session=True)
         try:
-            p = subprocess.run([sys.executable, "-c", "import sys; from vt.tasks_c29 import child_main; "
-                                                      "child_main(sys.argv[1], int(sys.argv[2]))", str(batch), str(start)],
-                               env=env, cwd=str(Path(__file__).resolve().parents[2]), stdout=err, stderr=err,
-                               timeout=240 + timeout_per_entry * (n - start))
+            p.wait(timeout=240 + timeout_per_entry * (n - start))
             why = f"child interpreter exited with code {p.returncode}"
         except subprocess.TimeoutExpired:
             why = "child interpreter did not finish (killed)"
         finally:
+            try:
+                os.killpg(p.pid, signal.SIGKILL)     # the interpreter and whatever pool processes it left behind
+            except (ProcessLookupError, PermissionError):
+                pass
+            p.wait()
             err.close()
+        text = out.read_text()
+        if text and not text.endswith("\n"):        # a report cut off by the death of the child
+            out.write_text(text[: text.rfind("\n") + 1])
         done = sum(1 for _ in open(out))
         nxt = start + (done - done_before)
         if nxt >= n:
@@ -296,9 +306,12 @@ def judge_entry(part, exp, common, rep):
             return bad("run-harness-error", f"child could not observe the run: {rep.get('exec_err')}")
         ref, ex = common["ref"], rep["exec"]
         cov["child_runs"] = cov.get("child_runs", 0) + 1
-        if ex["err"] != ref["err"]:
-            w = "child-only-raises" if ref["err"] is None else ("parent-only-raises" if ex["err"] is None else "different-error")
+        if ex["err"] == "hang":
+            return bad("run-differs:child-hangs", f"in-process run: err={ref['err']}; the child run did not return within the watchdog")
+        if (ex["err"] is None) != (ref["err"] is None):
+            w = "child-only-raises" if ref["err"] is None else "parent-only-raises"
             return bad(f"run-differs:{w}:{ex['err'] or ref['err']}", f"in-process run: err={ref['err']} {ref['msg']}; child run: err={ex['err']} {ex['msg']}")
+        # (which exception class a failing workflow surfaces with depends on the worker and its schedule, not on pickling)
         if "view_err" in ex:
             return bad("result-unreadable", f"child could not read its result: {ex['view_err']}")
         for k, name in (("outputs", "outputs"), ("errored", "errored"), ("argv", "argv"), ("log", "executed-bodies")):
@@ -402,8 +415,22 @@ def pipeline(ctx, descs, configs, warm, nproc, thorough=False):
     pmap(ctx, prepare, items, chunk=chunk)
     t1 = time.time()
     batches = sorted(keep.glob("batch-*.pkl"))
+    # opt-in wall-clock cap for overloaded machines (default: none): batches not started by then are reported as not explored
+    cap = float(os.environ.get("VT_C29_MAX_S", "0") or 0)
+    deadline = ctx.t0 + cap if cap else None
+
+    def one(b):
+        if deadline and time.time() > deadline:
+            return None
+        return run_child(b, child_seed(b.stem))
     with ThreadPoolExecutor(max(1, nproc)) as pool:
-        lost = list(pool.map(lambda b: run_child(b, child_seed(b.stem)), batches))
+        lost = list(pool.map(one, batches))
+    skipped = [b for b, l in zip(batches, lost) if l is None]
+    if skipped:
+        ctx.exhaustive = False
+        ctx.coverage["capped"] = f"VT_C29_MAX_S={cap:g}: {len(skipped)} of {len(batches)} batches were not sent to a child interpreter"
+    batches = [b for b, l in zip(batches, lost) if l is not None]
+    lost = [l for l in lost if l is not None]
     t2 = time.time()
     pmap(ctx, judge, [str(b) for b in batches], chunk=1)
     ctx.coverage["phase_seconds"] = dict(prepare=round(t1 - t0, 1), children=round(t2 - t1, 1), judge=round(time.time() - t2, 1))
@@ -436,7 +463,8 @@ def run(ctx):
     ctx.assumptions += [
         "workflows under the slurm worker are checked for identity and fields only (running them needs a cluster)",
         "shell commands are answered by the recorder seam (pydra.environments.base.execute) in parent and child; 'vtfail' exits 3",
-        "error messages are compared by exception class only (they embed job directories)",
+        "a failing run must fail in the child too (and leave an errored result); which exception class/message surfaces and which "
+        "independent nodes still ran is worker/schedule dependent and not compared",
         "the child and the parent share the file system (cache roots live in /dev/shm), as pydra's workers require",
         "jobs whose construction pydra refuses (mandatory field unset/None) are not part of the alphabet",
     ]
